@@ -1,7 +1,34 @@
 import Nv.Model.C13
+import Nv.Props.C13
+import Nv.Gen.C12
 import Nv.Gen.C13
 /-! C13 — obligations on the definitions regenerated from /repo's current source. -/
 namespace Nv.C13
+open Nv.C12
+
 theorem tie_facts : Nv.Gen.C13.facts = Facts.expected := by decide
 theorem tie_cfg_proved : Proved Nv.Gen.C13.cfg := by decide
+
+/-- the transition system of queue type `k` with the shapes and wake primitives found in the source -/
+def genPar (k : Kind) : Par := ⟨k, Nv.Gen.C12.cfg.shape k, Nv.Gen.C12.cfg.syncq, Nv.Gen.C13.cfg.wake k⟩
+
+theorem tie_wake_proved (k : Kind) : ProvedWake (genPar k).kind (genPar k).wk := by
+  cases k <;> decide
+
+/-- the property theorems instantiated on the regenerated configuration, for every queue type -/
+theorem tie_no_stuck_waiter (k : Kind) (a b : Int) (s : CS) (hr : (lts (genPar k) ((genPar k).newQ a b)).Reach s)
+    (hq : s.woken = []) (hp : s.parked ≠ []) : s.q.closed = false ∧ s.q.ctrl = [] ∧ s.q.req = [] :=
+  q_no_stuck_waiter (genPar k) (tie_wake_proved k) a b s hr hq hp
+
+theorem tie_close_releases_all (k : Kind) (a b : Int) (s s' : CS) (w : Tid) (as : List Act)
+    (hr : (lts (genPar k) ((genPar k).newQ a b)).Reach s)
+    (hrun : (lts (genPar k) ((genPar k).newQ a b)).run s (.close w :: as) = some s') (hq : s'.woken = []) :
+    ∀ t, (t ∈ tids s.parked ∨ t ∈ tids s.woken) → t ∈ tids s'.done :=
+  close_releases_all (genPar k) (tie_wake_proved k) a b s s' w as hr hrun hq
+
+theorem tie_priq_waitch_readable (cap : Int) (s : PS)
+    (hr : (plts Nv.Gen.C12.cfg.priq Nv.Gen.C13.cfg.priq cap).Reach s) (hne : s.q.entries ≠ [])
+    (h1 : s.pushGap = 0) (h2 : s.popGap = 0) (h3 : s.holders = 0) : s.token = true :=
+  priq_waitch_readable _ _ (by decide) cap s hr hne h1 h2 h3
+
 end Nv.C13
